@@ -1354,6 +1354,79 @@ theorem expand_eq_hand (u : Nat) (bs : List Block) (h : wellFormed u bs = true) 
     handList_unrollN u MAX_EXPANSION_PASSES bs (by omega)]
 
 
+/-! ### the expansion cost in closed form -/
+
+mutual
+theorem render_len_lines (u d : Nat) : ∀ b : Block, (render u d b).length = linesB b
+  | .decl f cs => by simp [render, linesB]; omega
+  | .loop v s e incl body => by simp [render, linesB, renderList_len_lines u (d + 1) body]; omega
+theorem renderList_len_lines (u d : Nat) : ∀ bs : List Block, (renderList u d bs).length = linesL bs
+  | [] => by simp [renderList, linesL]
+  | b :: bs => by simp [renderList, linesL, render_len_lines u d b, renderList_len_lines u d bs]
+end
+
+mutual
+theorem linesB_subst1 (v : Text) (k : Int) : ∀ b : Block, linesB (subst1 v k b) = linesB b
+  | .decl f cs => by simp [subst1, linesB]
+  | .loop v' s e incl body => by simp [subst1, linesB, linesL_subst1 v k body]
+theorem linesL_subst1 (v : Text) (k : Int) : ∀ bs : List Block, linesL (subst1List v k bs) = linesL bs
+  | [] => by simp [subst1List, linesL]
+  | b :: bs => by simp [subst1List, linesL, linesB_subst1 v k b, linesL_subst1 v k bs]
+end
+
+mutual
+theorem costB_subst1 (v : Text) (k : Int) : ∀ b : Block, costB (subst1 v k b) = costB b
+  | .decl f cs => by simp [subst1, costB]
+  | .loop v' s e incl body => by simp [subst1, costB, linesL_subst1 v k body, costL_subst1 v k body]
+theorem costL_subst1 (v : Text) (k : Int) : ∀ bs : List Block, costL (subst1List v k bs) = costL bs
+  | [] => by simp [subst1List, costL]
+  | b :: bs => by simp [subst1List, costL, costB_subst1 v k b, costL_subst1 v k bs]
+end
+
+theorem intRange_length' (s e : Int) : (intRange s e).length = (e - s).toNat := by simp [intRange]
+
+theorem costL_append (a b : List Block) : costL (a ++ b) = costL a + costL b := by
+  induction a with
+  | nil => simp [costL]
+  | cons x a ih => simp [costL, ih]; omega
+
+theorem costL_flatMap_const {α : Type} (l : List α) (f : α → List Block) (c : Nat) (h : ∀ x ∈ l, costL (f x) = c) :
+    costL (l.flatMap f) = l.length * c := by
+  induction l with
+  | nil => simp [costL]
+  | cons x l ih =>
+    simp only [List.flatMap_cons, costL_append, h x (by simp), ih (fun y hy => h y (by simp [hy])), List.length_cons]
+    rw [Nat.succ_mul]; omega
+
+theorem cost1_add_unroll1 (bs : List Block) : cost1 bs + costL (unroll1 bs) = costL bs := by
+  induction bs with
+  | nil => rfl
+  | cons x bs ih =>
+    cases x with
+    | decl f cs => simp only [cost1, unroll1, costL, costB]; omega
+    | loop v s e incl body =>
+      simp only [cost1, unroll1, costL_append, costL, costB, renderList_len_lines]
+      rw [costL_flatMap_const (intRange s e) _ (costL body) (fun k _ => costL_subst1 v k body), intRange_length',
+        Nat.mul_add]
+      omega
+
+theorem costL_depth0 (bs : List Block) (h : depthList bs = 0) : costL bs = 0 := by
+  induction bs with
+  | nil => rfl
+  | cons x bs ih =>
+    cases x with
+    | decl f cs => simp only [depthList, depth] at h; simp [costL, costB, ih (by omega)]
+    | loop v s e incl body => simp only [depthList, depth] at h; omega
+
+theorem costIter_eq_costL (n : Nat) : ∀ bs : List Block, depthList bs ≤ n → costIter n bs = costL bs := by
+  induction n with
+  | zero => intro bs h; simp [costIter, costL_depth0 bs (by omega)]
+  | succ n ih =>
+    intro bs h
+    have := depthList_unroll1 bs
+    rw [costIter, ih (unroll1 bs) (by omega), cost1_add_unroll1]
+
+
 /-! ### sample programs (used as non-vacuity witnesses in `Props/C42.lean`) -/
 
 def demo1 : List Block :=
